@@ -43,7 +43,7 @@ def check(tier, replay):
         "C06", tier, replay, spec="Conv.tla", mods="ops_h,ops_conv", trace=("Trace_Conv.tla", "Trace_Conv.cfg"),
         mc=[("Conv.tla", "MC_Conv.cfg")],
         gens=[("every single DFKconvert call: sizes x flavours x directions x counts x strides (+ full 8/16-bit sweeps)", "Gen_Conv.tla", "Gen_Conv_cover.cfg", "cover", {})],
-        mutators={"Conv1", "Conv2", "Sweep"}, need_actions=["Conv2", "Conv1", "Sweep"],
+        mutators={"Conv1", "Conv1g", "Conv2", "Sweep"}, need_actions=["Conv2", "Conv1", "Conv1g", "Sweep"],
         extra_behs=sweeps(tier), compare=False, tv_quick=100000, drive_timeout=300,
         assumptions=["little-endian host (the permutation table of the specification is the one for this host)",
                      "a zero stride means 'contiguous' only when given for both source and destination; counts >= 1",
